@@ -12,10 +12,11 @@ from harness.props import sspkt_util as U
 
 PROP = "C36"
 LEAN_MODULES = ["LunaVerif.Props.C36", "LunaVerif.Lemmas.C36CrcBounds", "LunaVerif.Lemmas.C36Frame",
-                "LunaVerif.Lemmas.C36RoundTrip", "LunaVerif.Lemmas.C36RoundTripGaps"]
+                "LunaVerif.Lemmas.C36RoundTrip", "LunaVerif.Lemmas.C36RoundTripGaps",
+                "LunaVerif.Lemmas.C36HeaderRxGaps"]
 DRIVER = "Driver/C36.lean"
 REQUIRED_THEOREMS = ["tx_emits_frame", "tx_emits_frame_complete", "rx_of_tx", "dppTail_eq_pack", "runPkt_done_only_last",
-                     "done_is_transfer_to_idle", "dpr_of_frame", "hrx_of_frame", "rx_of_tx_gaps",
+                     "done_is_transfer_to_idle", "dpr_of_frame", "hrx_of_frame", "rx_of_tx_gaps", "hrx_of_frame_gaps",
                      "tx_emits_frame_partial", "stall_invariant", "header_words", "delayed_aborts_with_edb",
                      "crc32_immediately_after_last_byte", "payload_words_in_order", "dpp_frame_all_lengths"]
 RULE = ("tx/loop cases: sequences of header packets (transaction / link management / ITP types, data headers, the "
@@ -32,12 +33,9 @@ ASSUMPTIONS = ["tx_emits_frame: stream contract of data_sink as the decidable pr
                "the last word has been accepted",
                "rx_of_tx: header type = DATA (dw0[0:5] = 0b01000), not delayed, payload length = the header's length field "
                "(11 bit); receivers start from reset; data receiver: any history whose valid words are the frame "
-               "(rx_of_tx_gaps); header receiver: words back to back followed by one more word that is not a header start, "
-               "expected_sequence = the header's sequence number"]
-PARTIAL = ("header-receiver half of rx_of_tx: proved for the frame's words arriving back to back; with invalid words "
-           "interleaved it is C37's RawRx.frame_received + accept_iff_crcs_and_seq applied to the header proved valid here "
-           "(hrxHdr_ok), not composed into a C36 theorem.  The data-receiver half is proved with invalid words anywhere "
-           "(rx_of_tx_gaps); tx_emits_frame is full.")
+               "(rx_of_tx_gaps); header receiver: any history whose valid words are the frame, followed by one more cycle "
+               "that is not a header start (hrx_of_frame_gaps), expected_sequence = the header's sequence number"]
+PARTIAL = ""
 
 
 def gen_cases(tier, rng):
